@@ -32,6 +32,7 @@ type Eval struct {
 	inOld bool
 	pkg   *types.Package
 	loop  *loopInfo
+	prev  *State // iteration-start snapshot for prev(e) in `loop N step` clauses
 }
 
 // loopOwnsAlloc: the rangeindex alloc belongs to the loop whose header stores to it.
@@ -700,6 +701,16 @@ func (ev *Eval) call(e *Expr) *Value {
 		}
 	}
 	switch e.Name {
+	case "prev":
+		// prev(e): value of e at the start of the current loop iteration (only in `loop N step` clauses)
+		if ev.prev == nil {
+			ev.fail("prev(...) outside a loop step clause")
+		}
+		saveSt := ev.st
+		ev.st = ev.prev
+		r := ev.eval(e.Args[0])
+		ev.st = saveSt
+		return r
 	case "locked":
 		// value of e right after the function under verification first acquired a monitor lock
 		snap := ev.st.lockSnap
@@ -806,6 +817,22 @@ func (ev *Eval) call(e *Expr) *Value {
 			return scalar(specBool, ev.v.mapHas(ev.old, m, k))
 		}
 		return ev.v.mapGet(ev.old, m, k)
+	case "sprintf":
+		// sprintf("fmt", args...): the same uninterpreted term the verifier uses for fmt.Sprintf with that constant format
+		if len(e.Args) < 1 || e.Args[0].Op != "str" {
+			ev.fail("sprintf needs a literal format")
+		}
+		var args []*Term
+		for _, a := range e.Args[1:] {
+			x := ev.eval(a)
+			for _, l := range x.L {
+				if l == nil {
+					ev.fail("sprintf of a local address")
+				}
+				args = append(args, l)
+			}
+		}
+		return scalar(types.Typ[types.String], App("sprintf!"+e.Args[0].Name+sortSig(args), SStr, args...))
 	case "payload":
 		// payload(x): the data word of an interface value (the pointer itself when the dynamic type is a pointer)
 		x := ev.eval(e.Args[0])
